@@ -157,7 +157,9 @@ func c10Doc(t *rapid.T) ([]byte, string) {
 }
 
 func c10Query(t *rapid.T, cmds []database.Command) string {
-	switch rapid.IntRange(0, 7).Draw(t, "qkind") {
+	switch rapid.IntRange(0, 8).Draw(t, "qkind") {
+	case 8: // byte length and character count on different sides of any threshold
+		return gen.SizedText(t, rapid.Bool().Draw(t, "sized-spaces"))
 	case 0:
 		return rapid.String().Draw(t, "q")
 	case 1:
